@@ -68,6 +68,8 @@ type Payload struct {
 	// orders "a core is reaped, then another one is started / finishes" happen on fast machines too;
 	// the verdict of a case never depends on the waiting time.
 	Reap bool `json:"reap,omitempty"`
+	// Host: "" = the in-memory host of the harness, "testing" = the repository's testing host (host.go).
+	Host string `json:"host,omitempty"`
 }
 
 type exitRec struct {
@@ -143,6 +145,8 @@ type histRun struct {
 	nontriv   bool
 	trace     []string
 	completed int
+	// note: appended to the explanation of every violation (which VM of the history is being called)
+	note string
 }
 
 func (h *histRun) violate(sig, why string, detail any) {
@@ -151,7 +155,7 @@ func (h *histRun) violate(sig, why string, detail any) {
 			return
 		}
 	}
-	h.viol = append(h.viol, violation{why: why, sig: sig, detail: detail})
+	h.viol = append(h.viol, violation{why: why + h.note, sig: sig, detail: detail})
 }
 
 func astTypeOf(s *fnSpec, declared map[string]ast.AnalyzedFunctionDefinition) (runtime.FunctionInvocationSignature, error) {
@@ -165,10 +169,17 @@ func astTypeOf(s *fnSpec, declared map[string]ast.AnalyzedFunctionDefinition) (r
 		return runtime.FunctionInvocationSignature{}, fmt.Errorf("function %s is not in the analysed program", s.Name)
 	}
 	sig := runtime.FunctionInvocationSignature{Params: []runtime.FunctionInvocationSignatureParam{}, ReturnType: def.ReturnType}
-	if len(def.Parameters.List) != len(s.Params) {
-		return sig, fmt.Errorf("function %s: %d declared parameters, spec has %d", s.Name, len(def.Parameters.List), len(s.Params))
+	// singleton extraction parameters (s: $Stats) are filled in by the function itself, the host passes the others
+	var passed []ast.AnalyzedFnParam
+	for _, prm := range def.Parameters.List {
+		if !prm.IsSingletonExtractor {
+			passed = append(passed, prm)
+		}
 	}
-	for i, prm := range def.Parameters.List {
+	if len(passed) != len(s.Params) {
+		return sig, fmt.Errorf("function %s: %d declared parameters, spec has %d", s.Name, len(passed), len(s.Params))
+	}
+	for i, prm := range passed {
 		if prm.Ident.Ident() != s.Params[i].Name {
 			return sig, fmt.Errorf("function %s: parameter %d is %s, spec says %s", s.Name, i, prm.Ident.Ident(), s.Params[i].Name)
 		}
@@ -364,38 +375,108 @@ func runHistory(pl Payload) (h *histRun) {
 		return newCoreGoroutines(), true
 	}
 
-	ctx, realCancel := context.WithCancel(context.Background())
-	defer realCancel()
-	var cancel context.CancelFunc = realCancel
-	if pl.NoCancel {
-		cancel = func() {}
+	hst, herr := newHost(pl.Host, src)
+	if herr != nil {
+		h.inconcl = "harness: " + herr.Error()
+		return h
 	}
-	exec := drive.VMExec{L: &drive.Log{}, Src: src}
+	if pl.Host == "" {
+		h.cover["host:harness"] = true
+	} else {
+		h.cover["host:"+pl.Host] = true
+	}
 	limits := runtime.CoreLimits{CallStackMaxSize: pl.Limits.CallStack, StackMaxSize: pl.Limits.Stack, MaxMemorySize: pl.Limits.Memory}
 	e := env{callStackMax: int64(pl.Limits.CallStack)}
 
-	if pv := protect(func() { vm = runtime.NewVM(prog, exec, &ctx, &cancel, exec.VMScope(), limits) }); pv != nil {
-		h.violate("newvm:panic", "NewVM panicked on the host goroutine: "+util.Clip(fmt.Sprint(pv), 300), nil)
-		return h
+	// hostLocks: the host's own locks must be free whenever no call is in progress
+	hostLocks := func(when string) bool {
+		if f := hst.writeFault(); f != "" {
+			h.violate("lock:host:left-by-write", fmt.Sprintf("%s: the host's print mutex (TestingVmExecutor.PintBufMutex) is left locked by a completed write: %s. Every later print / println / debug on this host - in this call, in a thread, in any later call - blocks forever, and with it Wait and SpawnSync", when, f), h.trace)
+			return false
+		}
+		if l := hst.lockHeld(); l != "" {
+			h.violate("lock:host:held:"+strings.SplitN(when, " ", 2)[0], fmt.Sprintf("%s: %s", when, l), h.trace)
+			return false
+		}
+		h.obs["host_lock_checks"]++
+		return true
 	}
-	mon.mu.Lock()
-	mon.exits = nil
-	mon.mu.Unlock()
-	if !vm.Cores.Lock.TryLock() {
-		h.violate("lock:held:after-init", "Cores.Lock cannot be acquired after NewVM returned", nil)
-		return h
+
+	// boot: the host builds a VM from the compile output (NewVM runs @init). Every VM gets a context and a
+	// cancel function of its own; the executor (and what it has collected) stays.
+	var ctx *context.Context
+	var cancels []context.CancelFunc
+	defer func() {
+		for _, c := range cancels {
+			c()
+		}
+	}()
+	written := ""
+	vms := 0
+	boot := func(when string) bool {
+		c, realCancel := context.WithCancel(context.Background())
+		cancels = append(cancels, realCancel)
+		var cancel context.CancelFunc = realCancel
+		if pl.NoCancel {
+			cancel = func() {}
+		}
+		ctx = &c
+		if pv := protect(func() { vm = runtime.NewVM(prog, hst.executor(), &c, &cancel, hst.scope(), limits) }); pv != nil {
+			h.violate("newvm:panic", when+": NewVM panicked on the host goroutine: "+util.Clip(fmt.Sprint(pv), 300), h.trace)
+			return false
+		}
+		vms++
+		mon.mu.Lock()
+		mon.exits = nil
+		mon.mu.Unlock()
+		if !vm.Cores.Lock.TryLock() {
+			h.violate("lock:held:after-init", when+": Cores.Lock cannot be acquired after NewVM returned", h.trace)
+			return false
+		}
+		nInit := len(vm.Cores.Cores)
+		vm.Cores.Lock.Unlock()
+		if nInit != 0 {
+			h.violate("residue:cores:@init", fmt.Sprintf("%s: after NewVM returned (it runs @init through SpawnSync), %d cores are still in the core list (the next Wait would poll a finished core forever)", when, nInit), h.trace)
+			return false
+		}
+		if !hostLocks(when + ", after NewVM returned") {
+			return false
+		}
+		if out := hst.output(); out != written {
+			h.violate("output:@init", fmt.Sprintf("%s: NewVM (the initialisation of the globals) wrote %q to the host; the program writes nothing there", when, util.Clip(strings.TrimPrefix(out, written), 200)), h.trace)
+			return false
+		}
+		return true
 	}
-	nInit := len(vm.Cores.Cores)
-	vm.Cores.Lock.Unlock()
-	if nInit != 0 {
-		h.violate("residue:cores:@init", fmt.Sprintf("after NewVM returned (it runs @init through SpawnSync), %d cores are still in the core list (the next Wait would poll a finished core forever)", nInit), nil)
+	if !boot("first VM") {
 		return h
 	}
 
 	st := newState(v.Init)
-	failedAt := -1 // index of the first failed call (model or observed)
+	failedAt := -1 // index of the first failed call (model or observed) on the current VM
+	// abandoned: no further call may be attempted on the current VM (it would block); a new VM may follow
+	abandoned := false
+	restartNext := func(i int) bool { return i+1 < len(pl.Ops) && pl.Ops[i+1].Fn == opNewVM }
 
 	for i, op := range pl.Ops {
+		if op.Fn == opNewVM {
+			// the host replaces the VM by a new one built from the SAME compile output: it starts from the
+			// initial state (globals, singletons), whatever the VMs before it did - and whether they failed
+			if !boot(fmt.Sprintf("op %d %s (VM %d of the history)", i, opNewVM, vms+1)) {
+				return h
+			}
+			st = newState(v.Init)
+			failedAt, abandoned = -1, false
+			h.note = fmt.Sprintf(" [the call is made on VM %d of the history, which the host built at op %d (%s) from the same compile output as the VMs before it: a new VM must start from the initial state of the globals and singletons, whatever earlier VMs did]", vms, i, opNewVM)
+			h.obs["restarts"]++
+			h.cover["restart"] = true
+			h.trace = append(h.trace, fmt.Sprintf("%d %s", i, opNewVM))
+			continue
+		}
+		if abandoned {
+			h.inconcl = "harness: history continues on a VM that must not be called any more"
+			return h
+		}
 		spec := specByName[op.Fn]
 		if spec == nil || !v.has(spec.Only) {
 			h.inconcl = "harness: unknown function " + op.Fn
@@ -427,7 +508,7 @@ func runHistory(pl Payload) (h *histRun) {
 
 		// a VM whose context is cancelled (it does that itself when a call fails) must refuse the call:
 		// nothing executes, the model state stays as it is
-		cancelled := ctx.Err() != nil
+		cancelled := (*ctx).Err() != nil
 		if cancelled && failedAt < 0 {
 			h.violate("cancel:without-failure", fmt.Sprintf("before call %d %s the context of the VM is cancelled although no call of the history has failed", i, op), h.trace)
 			return h
@@ -436,6 +517,7 @@ func runHistory(pl Payload) (h *histRun) {
 		// the model
 		var want valuni.Val
 		var wantFail *failure
+		st.out, st.outAlt = "", nil
 		if !cancelled {
 			want, wantFail = spec.Model(st, e, op.Args)
 		}
@@ -475,6 +557,10 @@ func runHistory(pl Payload) (h *histRun) {
 		h.cover["fn:"+spec.Name] = true
 		if pv != nil {
 			h.violate("panic:"+spec.Name+":"+util.NormPanic(fmt.Sprint(pv)), fmt.Sprintf("call %d %s panicked on the host goroutine: %s", i, op, util.Clip(fmt.Sprint(pv), 300)), h.trace)
+			return h
+		}
+		// the host's own locks (judged first: a write that is refused because the host's mutex is held makes the call fail)
+		if !hostLocks(fmt.Sprintf("after call %d %s returned", i, op)) {
 			return h
 		}
 		mon.mu.Lock()
@@ -556,6 +642,31 @@ func runHistory(pl Payload) (h *histRun) {
 				st.written[g] = true
 			}
 		}
+		// ---- the text the call wrote to the host -----------------------------------------------------
+		outNow := hst.output()
+		wrote := strings.TrimPrefix(outNow, written)
+		appended := strings.HasPrefix(outNow, written)
+		written = outNow
+		if !appended {
+			h.violate("output:rewritten:"+spec.Name, fmt.Sprintf("call %d %s: the text the host had collected before the call is no longer a prefix of what it holds now", i, op), h.trace)
+			return h
+		}
+		// judged whenever the call was executed and ended the way the model says (after a failed call any failure
+		// answer is acceptable, so a failing call is not judged then)
+		if !cancelled && obsFailed == (wantFail != nil) && !(afterFailure && obsFailed) {
+			ok := wrote == st.out
+			for _, alt := range st.outAlt {
+				ok = ok || wrote == alt
+			}
+			h.obs["output_checks"]++
+			if st.out != "" {
+				h.obs["output_checks_nonempty"]++
+			}
+			if !ok {
+				h.violate("output:"+spec.Name, fmt.Sprintf("call %d %s wrote %q to the host, the function writes %q", i, op, util.Clip(wrote, 200), util.Clip(st.out, 200)), h.trace)
+				return h
+			}
+		}
 		if (obsFailed || wantFail != nil) && failedAt < 0 {
 			failedAt = i
 		}
@@ -601,7 +712,7 @@ func runHistory(pl Payload) (h *histRun) {
 		lockFree := true
 		if obsFailed && pl.SkipLockAfterFailure {
 			// not evaluated (see Info.Rule); such histories end here
-			if i != len(pl.Ops)-1 {
+			if i != len(pl.Ops)-1 && !restartNext(i) {
 				h.inconcl = "harness: history continues after a failed call although the lock check is disabled"
 				return h
 			}
@@ -640,6 +751,10 @@ func runHistory(pl Payload) (h *histRun) {
 			}
 		}
 		if !lockFree {
+			if obsFailed && pl.SkipLockAfterFailure && restartNext(i) {
+				abandoned = true
+				continue
+			}
 			return h // never attempt a call that would deadlock
 		}
 		if len(h.viol) >= 3 {
